@@ -269,9 +269,31 @@ class _AttrBase(Prop):
                     t.attrs.update({"a": x})
                 elif way == "void":
                     t = H.tags.img(b="1", a=x)
+                elif way == "class_then_remove_other":
+                    # remove_class rewrites the class value from its tokens: the token that stays is still plain text
+                    t = H.tags.div(class_=x + " zap")
+                    t.remove_class("zap")
+                elif way == "class_then_remove_absent":
+                    t = H.tags.div(class_=x)
+                    t.remove_class("not-there")
+                elif way == "class_merge_html_then_remove":
+                    t = H.tags.div(class_=x)
+                    t.add_class(H.HTML("zz"))
+                    t.remove_class("zz")
+                elif way in ("doc_html_class", "doc_html_style"):
+                    # attribute arguments of a document whose sole content is the caller's own <html> element
+                    nm = "class" if way == "doc_html_class" else "style"
+                    root = H.tags.html(H.tags.body("b"), {nm: H.HTML("dark")})
+                    out = H.HTMLDocument(root, **{nm: x}).render()["html"]
+                    return out[out.index("<html"): out.index(">", out.index("<html")) + 1]
+                elif way == "doc_kw":
+                    out = H.HTMLDocument(H.tags.div("c"), lang="en", **{"data-k": x}).render()["html"]
+                    return out[out.index("<html"): out.index(">", out.index("<html")) + 1]
                 else:
                     t = H.tags.div(b="1", a=x, c="2")
                 return t.get_html_string()
+            if way.startswith("class_") and s.split() != [s]:
+                return None          # the class helpers work on whitespace-separated tokens (C16)
             seg = segment(r, MARK, s)
             return seg_or_flag("C03", "attr", [("esc", s)], seg, g) | {"_module": "EscapeTrace"}
         if g["kind"] == "fn":
@@ -332,12 +354,19 @@ class C03(_AttrBase):
         blocks = range(0x110) if tier == "thorough" else sorted({0, 1, 2, 0xD, 0xF, 0x10, 0x10F} | {rnd.randrange(0x110) for _ in range(6)})
         for b in blocks:
             gens.append({"kind": "cprange", "lo": b * step, "hi": b * step + step - 1, "path": "attr"})
-        for s in gamma.HOSTILE:
-            for way in ("kw", "dict", "setitem", "update", "void", "mid"):
+        ways = ["kw", "dict", "setitem", "update", "void", "mid", "class_then_remove_other", "class_then_remove_absent",
+                "class_merge_html_then_remove", "doc_html_class", "doc_html_style", "doc_kw"]
+        tokens = ["a&b", 'x"y', "it's", "<b>", "p>q", "&amp;", "é&", 'a"b\'c<d>e&f']
+        for s in gamma.HOSTILE + tokens:
+            for way in ways:
+                gens.append({"kind": "attr_seg", "s": cps(s), "way": way})
+        # long values (an implementation may treat long strings differently from short ones)
+        for s in gamma.LONG_HOSTILE + ["q" * 300 + '"' + "r" * 10, "'" * 256, "z" * 255 + "\r", ("ab\n" * 70), "k" * 1000 + "<\"&'>"]:
+            for way in ("kw", "dict", "setitem", "update", "void", "mid", "doc_kw"):
                 gens.append({"kind": "attr_seg", "s": cps(s), "way": way})
         for _ in range(500 if tier == "quick" else 10000):
-            gens.append({"kind": "attr_seg", "s": cps(gamma.rand_text(rnd, rnd.choice([5, 30, 100]))),
-                         "way": rnd.choice(["kw", "dict", "setitem", "update", "void", "mid"])})
+            gens.append({"kind": "attr_seg", "s": cps(gamma.rand_text(rnd, rnd.choice([5, 30, 100, 400]))),
+                         "way": rnd.choice(ways)})
         # history dependence: the same string rendered as text first, then as an attribute value
         for j, s in enumerate(gamma.HOSTILE + ["Tom & \"Jerry\"", "a<b 'c'", "x & y\nz"]):
             gens.append({"kind": "attr_seg", "s": cps("p" + str(j) + s), "way": ["kw", "dict", "void"][j % 3], "prime": True})
